@@ -36,10 +36,14 @@ OPS = ("factory", "resource-td")
 
 def scenarios() -> list[dict]:
     out = []
-    for op, shape, phase, alias, ntypes in itertools.product(OPS, SHAPES, ("prepare", "start"), ("plain", "kind/name"), (1, 2)):
+    for op, shape, phase, alias, ntypes in itertools.product(OPS, SHAPES, ("prepare", "start"), ("plain", "kind/name", "kind/name>plain"), (1, 2)):
         if op == "resource-td" and shape.startswith(("bad", "async")):
             continue
+        if alias == "kind/name>plain" and (shape not in ("function", "object") or phase != "start"):
+            continue  # a plain-alias component nested below a kind/name component: its default-named registrations stay "default"
         out.append({"op": op, "shape": shape, "phase": phase, "alias": alias, "ntypes": ntypes})
+    for phase in ("prepare", "start"):
+        out.append({"op": "lookups", "phase": phase})
     return out
 
 
@@ -48,6 +52,8 @@ async def run_scenario(sc: dict) -> list[tuple[str, str]]:
     from asphalt.core import Component, Context, start_component
 
     fails: list[tuple[str, str]] = []
+    if sc["op"] == "lookups":
+        return await run_lookups(sc)
     made: list[Any] = []
     td_ran: list[str] = []
     outcome: dict[str, Any] = {}
@@ -89,7 +95,7 @@ async def run_scenario(sc: dict) -> list[tuple[str, str]]:
         cb = {"function": close_fn, "lambda": lambda: close_fn("lambda"), "partial": functools.partial(close_fn, "partial"), "object": Closer(),
               "method": Closer().close}[shape]
     valid = not shape.startswith("bad")
-    name = "default" if sc["alias"] == "kind/name" else "thing"
+    name = "default" if sc["alias"].startswith("kind/name") else "thing"
     value = cls("static")
 
     async def phase_body() -> None:
@@ -114,9 +120,16 @@ async def run_scenario(sc: dict) -> list[tuple[str, str]]:
             if sc["phase"] == "start":
                 await phase_body()
 
+    class Holder(Component):
+        def __init__(self) -> None:
+            self.add_component("comp", Comp)
+
     class Root(Component):
         def __init__(self) -> None:
-            self.add_component("kind/name" if sc["alias"] == "kind/name" else "comp", Comp)
+            if sc["alias"] == "kind/name>plain":
+                self.add_component("kind/name", Holder)
+            else:
+                self.add_component("kind/name" if sc["alias"] == "kind/name" else "comp", Comp)
 
     events: list = []
     started = anyio.Event()
@@ -203,6 +216,64 @@ async def run_scenario(sc: dict) -> list[tuple[str, str]]:
             fails.append(("teardown", f"teardown callbacks that ran: {td_ran}, expected {want}"))
     elif sc["op"] == "resource-td" and td_ran:
         fails.append(("unchanged", f"the call raised but its teardown callback ran: {td_ran}"))
+    return fails
+
+
+async def run_lookups(sc: dict) -> list[tuple[str, str]]:
+    """Inside a component every lookup path - method / shortcut, sync / async, optional or not, @inject - resolves a (type, name)
+    pair to the same object, for the default name and for other names alike."""
+    import asphalt.core as ac
+    from asphalt.core import Component, Context, start_component
+
+    fails: list[tuple[str, str]] = []
+    objs = {"default": PA("default"), "backup": PA("backup"), "x9": PA("x9")}
+
+    @ac.inject
+    async def inj_backup(r: PA = ac.resource("backup")) -> Any:
+        return r
+
+    @ac.inject
+    def inj_x9(r: PA | None = ac.resource("x9")) -> Any:
+        return r
+
+    async def body() -> None:
+        cur = ac.current_context()
+        for name, obj in objs.items():
+            seen = {
+                "shortcut nowait": ac.get_resource_nowait(PA, name),
+                "shortcut nowait optional": ac.get_resource_nowait(PA, name, optional=True),
+                "shortcut async": await ac.get_resource(PA, name),
+                "shortcut async optional": await ac.get_resource(PA, name, optional=True),
+                "method nowait": cur.get_resource_nowait(PA, name),
+                "method async": await cur.get_resource(PA, name),
+                "method async optional": await cur.get_resource(PA, name, optional=True),
+                "get_resources": ac.get_resources(PA).get(name),
+            }
+            if name == "backup":
+                seen["inject async"] = await inj_backup()
+            if name == "x9":
+                seen["inject sync optional"] = inj_x9()
+            for how, got in seen.items():
+                if got is not obj:
+                    fails.append(("stable", f"inside a component's {sc['phase']}(): {how} of (PA, {name!r}) gave {getattr(got, 'label', got)!r}, other lookups give {obj.label!r}"))
+        for how, got in (("shortcut async optional", await ac.get_resource(PB, "backup", optional=True)),
+                         ("shortcut nowait optional", ac.get_resource_nowait(PB, "backup", optional=True))):
+            if got is not None:
+                fails.append(("stable", f"inside a component's {sc['phase']}(): {how} of the unregistered pair (PB, 'backup') gave {got!r}"))
+
+    class Comp(Component):
+        async def prepare(self) -> None:
+            if sc["phase"] == "prepare":
+                await body()
+
+        async def start(self) -> None:
+            if sc["phase"] == "start":
+                await body()
+
+    async with Context() as ctx:
+        for name, obj in objs.items():
+            ctx.add_resource(obj, name)
+        await start_component(Comp, {}, timeout=5)
     return fails
 
 
